@@ -153,7 +153,7 @@ def fd_logdet(p, xp, rows):
         base = xp[j:j + 1]
         hrow = []
         for n in prim:
-            h = 1e-6 * max(abs(float(base[n][0])), 0.1 * scale[n])
+            h = 1e-4 * max(abs(float(base[n][0])), 0.1 * scale[n])
             hrow.append(h)
             for sg in (1.0, -1.0):
                 row = base.copy()
@@ -166,12 +166,19 @@ def fd_logdet(p, xp, rows):
     out = []
     for r_, j in enumerate(rows):
         J = np.zeros((K, K))
+        noise = 0.0
         for k in range(K):
             ip = (r_ * K + k) * 2
+            best = 0.0
             for a_, q in enumerate(par):
-                J[a_, k] = (float(xb[q][ip]) - float(xb[q][ip + 1])) / (2 * hs[r_][k])
-        if not np.all(np.isfinite(J)):
-            out.append(float("nan"))
+                up, dn = float(xb[q][ip]), float(xb[q][ip + 1])
+                J[a_, k] = (up - dn) / (2 * hs[r_][k])
+                if abs(up - dn) >= best:
+                    best = abs(up - dn)
+                    nz = 2.0 ** -50 * (abs(up) + abs(dn)) / best if best > 0 else float("inf")
+            noise += nz
+        if not np.all(np.isfinite(J)) or not noise < 1e-4:
+            out.append(float("nan"))     # rounding noise of the differences too large for this row: not usable
             continue
         sign, ld = np.linalg.slogdet(J)
         out.append(float(ld) if sign != 0 else float("-inf"))
